@@ -237,6 +237,9 @@ func treeFamily(raw json.RawMessage) Result {
 		if op.Op == "EvalFile" {
 			// C18: evaluating a file by path equals evaluating its content as a string
 			abs := filepath.Join(root, strings.Trim(c.Cfg.Dir, "/"), op.Name+c.Cfg.Ext)
+			if strings.HasPrefix(op.Name, "/") { // a path relative to the case's root, for files that are not templates of the tree
+				abs = filepath.Join(root, op.Name)
+			}
 			content, rerr := os.ReadFile(abs)
 			o2, e2 := textwire.EvaluateFile(abs, data)
 			if rerr != nil {
